@@ -86,10 +86,15 @@ pub fn one_case(tag: &str, id: &str, r: &mut Rng, max_ops: u64, snaps: bool) -> 
                         let lo = if nothing_yet { dir_end as u64 } else { r.range(dir_end as u64, buf.len() as u64 - 1) };
                         // (an entry may describe an empty stream: it still has to reach the destination)
                         let sz = if nothing_yet || r.chance(1, 6) { 0 } else { r.range(1, buf.len() as u64 - lo) };
-                        let d = md::MINIDUMP_DIRECTORY {
+                        let mut d = md::MINIDUMP_DIRECTORY {
                             stream_type: r.range(1, 0xffff) as u32,
                             location: md::MINIDUMP_LOCATION_DESCRIPTOR { data_size: sz as u32, rva: lo as u32 },
                         };
+                        // (sometimes the unused entry — what a stream that failed softly leaves behind: it takes its
+                        // slot like any other; side stream)
+                        if Rng::new(r.0 ^ 0x7f4a_7c15_9e37_79b9).chance(1, 5) {
+                            d = md::MINIDUMP_DIRECTORY { stream_type: 0, location: md::MINIDUMP_LOCATION_DESCRIPTOR { data_size: 0, rva: 0 } };
+                        }
                         let mut raw = Vec::new();
                         raw.extend_from_slice(&d.stream_type.to_le_bytes());
                         raw.extend_from_slice(&d.location.data_size.to_le_bytes());
